@@ -45,16 +45,17 @@ extern void mpt_queue_align(MPT_STRUCT(queue) *queue, size_t pos)
 	}
 	
 	/* split block into upper and lower part */
-	mpt_memrev(addr+queue->off, pv = pos-queue->off, queue->len);
+	mpt_memrev(addr+queue->off, pv = queue->max-pos, queue->len);
 	
 	/* move lower part to buffer data start */
 	if (queue->off)
-		(void) memmove(addr, addr+queue->off, pv);
+		(void) memmove(addr, addr+queue->off, queue->len-pv);
 	
-	pos = queue->max - (queue->len - pv);
+	/* move upper part to buffer data end */
+	if (pos != (queue->off + (queue->len - pv)))
+		(void) memmove(addr+pos, addr+queue->off+(queue->len-pv), pv);
 	
-	if (pos != (queue->off + pv))
-		(void) memmove(addr+pos, addr+queue->off+pv, queue->len-pv);
+	queue->off = pos;
 	
 	return;
 }
